@@ -157,13 +157,13 @@ def _leg_trees(case, add):
                 if not all(np.array_equal(np.asarray(a), np.asarray(b)) for a, b in zip(jax.tree_util.tree_leaves(uu), jax.tree_util.tree_leaves(u))):
                     add(f"trees|idempotent|{tag}", f"unwrap is not idempotent for {tag} in {cname}")
             # vmapped construction (1 and 2 levels) == stack of individual constructions
-            for levels in (1, 2):
-                shifts = np.asarray([0.0, 0.3, -0.6])
-                if levels == 1:
+            for levels in (1, 2, 11, 12):  # 11 / 12: one / two construction axes of size exactly 1
+                shifts = np.asarray([0.0, 0.3, -0.6]) if levels < 10 else np.asarray([0.4])
+                if levels in (1, 11):
                     vt = eqx.filter_vmap(lambda s: build_chain(chain, jnp.asarray(base) + s, mask, False)[0])(jnp.asarray(shifts))
                     want = np.stack([build_chain(chain, base + s, mask)[1] for s in shifts])
                 else:
-                    s2 = np.asarray([0.0, 1.1])
+                    s2 = np.asarray([0.0, 1.1]) if levels < 10 else np.asarray([-0.7])
                     vt = eqx.filter_vmap(lambda t: eqx.filter_vmap(lambda s: build_chain(chain, jnp.asarray(base) + s + t, mask, False)[0])(jnp.asarray(shifts)))(jnp.asarray(s2))
                     want = np.stack([np.stack([build_chain(chain, base + s + t, mask)[1] for s in shifts]) for t in s2])
                 tr += 1
@@ -312,6 +312,22 @@ def _leg_freeze(case, add):
         tp = {jax.tree_util.keystr(p) for p in trainable_paths(fm)}
         if tp != {jax.tree_util.keystr(p) for p in paths} - frozen:
             add(f"freeze|partition|{case['model']}", f"{case['model']}: trainable partition {sorted(tp)} after freezing {sorted(frozen)}")
+    # the library's own freezing function: non_trainable(tree) must freeze EVERY inexact array in the tree, wherever it sits
+    from flowjax.wrappers import non_trainable as nt_fn
+
+    for part_name, frozen_model in (("whole model", nt_fn(model)), ("bijection", eqx.tree_at(lambda m: m.bijection, model, replace_fn=nt_fn)),
+                                    ("base_dist", eqx.tree_at(lambda m: m.base_dist, model, replace_fn=nt_fn))):
+        tr += 1
+        nt += 1
+        g = leaves_by_path(full_grad(frozen_model))
+        inside = (lambda k_: True) if part_name == "whole model" else (lambda k_, pn=part_name: k_.startswith("." + pn))
+        for ks, gv in g.items():
+            if inside(ks) and np.any(np.asarray(gv) != 0):
+                add(f"freeze|non_trainable-leaves-gradient|{case['model']}", f"{case['model']}: after flowjax.wrappers.non_trainable({part_name}) leaf {_strip(ks)} still receives gradient {np.asarray(gv).ravel()[:3].tolist()}")
+                break
+        left = [jax.tree_util.keystr(p) for p in trainable_paths(frozen_model) if inside(jax.tree_util.keystr(p))]
+        if left:
+            add(f"freeze|non_trainable-leaves-trainable|{case['model']}", f"{case['model']}: after flowjax.wrappers.non_trainable({part_name}) these leaves are still in the trainable partition: {left[:4]}")
     # frozen transformer leaves are not parameterised by conditioners
     import flowjax.bijections as B
     from flowjax.wrappers import non_trainable
